@@ -645,6 +645,12 @@ pub fn min_heights(cfg: &Cfg) -> (Vec<usize>, Vec<usize>) {
 /// decisions (consumed left to right, wrapping), `budget` bounds the number of
 /// leaves approximately. Returns None if the start symbol is unproductive.
 pub fn random_derivation(cfg: &Cfg, heights: &(Vec<usize>, Vec<usize>), choices: &[u16], budget: usize) -> Option<Tree> {
+    random_derivation_deep(cfg, heights, choices, budget, 24)
+}
+
+/// As `random_derivation`, with an explicit bound on the nesting depth (long sentences of left- or right-recursive
+/// grammars need deep trees).
+pub fn random_derivation_deep(cfg: &Cfg, heights: &(Vec<usize>, Vec<usize>), choices: &[u16], budget: usize, max_depth: usize) -> Option<Tree> {
     if heights.0[cfg.start as usize] == usize::MAX {
         return None;
     }
@@ -657,11 +663,12 @@ pub fn random_derivation(cfg: &Cfg, heights: &(Vec<usize>, Vec<usize>), choices:
         ci: &mut usize,
         leaves: &mut usize,
         budget: usize,
+        max_depth: usize,
         n: u16,
         depth: usize,
     ) -> Tree {
         let cands: Vec<usize> = cfg.rules_of(n).filter(|r| heights.1[*r] != usize::MAX).collect();
-        let tight = *leaves >= budget || depth > 24;
+        let tight = *leaves >= budget || depth > max_depth;
         let rule = if tight {
             *cands.iter().min_by_key(|r| (heights.1[**r], **r)).unwrap()
         } else {
@@ -676,12 +683,12 @@ pub fn random_derivation(cfg: &Cfg, heights: &(Vec<usize>, Vec<usize>), choices:
                     *leaves += 1;
                     children.push(Tree::Leaf { term: t, pos: 0 });
                 }
-                S::N(m) => children.push(go(cfg, heights, choices, ci, leaves, budget, m, depth + 1)),
+                S::N(m) => children.push(go(cfg, heights, choices, ci, leaves, budget, max_depth, m, depth + 1)),
             }
         }
         Tree::Node { rule, children }
     }
-    let mut t = go(cfg, heights, choices, &mut ci, &mut leaves, budget, cfg.start, 0);
+    let mut t = go(cfg, heights, choices, &mut ci, &mut leaves, budget, max_depth, cfg.start, 0);
     let mut next = 0;
     t.renumber(&mut next);
     Some(t)
